@@ -17,7 +17,7 @@ package main
 // is stored iff all its ancestors were delivered and are valid); no valid
 // orphan is left whose parent is stored; every delivered valid block is either
 // stored or waiting in the orphan pool; the orphan index lists every waiting
-// orphan under its parent; delivering the same set in tree order to a fresh
+// valid orphan under its parent; delivering the same set in tree order to a fresh
 // node stores the same set.
 //
 // Correspondence: per delivery (orphan flag, error class), finally stored /
@@ -59,6 +59,7 @@ type Case struct {
 	Parents []int  `json:"parents"` // Parents[i] = label of the parent of block i+1 (0 = genesis)
 	Bad     []int  `json:"bad"`     // per block: 0 valid, 1 header version 2 (invalid), 2 signed by the wrong key (invalid)
 	Order   []int  `json:"order"`   // delivered labels, in order
+	Ref     bool   `json:"ref"`     // also deliver the same set in tree order to a second fresh node
 }
 
 type Step struct {
@@ -74,6 +75,7 @@ type Result struct {
 	Exist  []bool  `json:"exist"`  // per label 0..n: Chain.BlockExist
 	Prev   [][]int `json:"prev"`   // per label 0..n as parent: labels listed by GetPrevOrphans (-1 = unknown hash)
 	Best   uint64  `json:"best"`   // height of Chain.BestBlockHeader
+	Ref    []bool  `json:"ref,omitempty"` // per label: stored by a fresh node that got the same set in tree order
 	Panic  string  `json:"panic,omitempty"`
 	Hang   bool    `json:"hang,omitempty"`
 }
@@ -120,7 +122,11 @@ func errClass(err error) int {
 // The node's LevelDB stays open until the child exits: the node's background goroutines (casper's
 // verification loop) keep reading it and panic on a closed database.
 func runOne(w *cl.World, t *builtTree, c *Case, base string) (*Result, error) {
-	dir := filepath.Join(base, fmt.Sprintf("node_%d", c.ID))
+	return runNode(w, t, c, base, false)
+}
+
+func runNode(w *cl.World, t *builtTree, c *Case, base string, ref bool) (*Result, error) {
+	dir := filepath.Join(base, fmt.Sprintf("node_%d_%v", c.ID, ref))
 	if err := os.MkdirAll(dir, 0755); err != nil {
 		return nil, err
 	}
@@ -134,6 +140,23 @@ func runOne(w *cl.World, t *builtTree, c *Case, base string) (*Result, error) {
 		return nil, err
 	}
 	r := &Result{ID: c.ID}
+	if c.Ref && !ref {
+		// the reference run: the same set of blocks, parents first, each once
+		seen := map[int]bool{}
+		var sorted []int
+		for _, l := range c.Order {
+			if !seen[l] {
+				seen[l] = true
+				sorted = append(sorted, l)
+			}
+		}
+		sort.Ints(sorted)
+		rr, err := runNode(w, t, &Case{ID: c.ID, Parents: c.Parents, Bad: c.Bad, Order: sorted}, base, true)
+		if err != nil {
+			return nil, err
+		}
+		r.Ref = rr.Stored
+	}
 	for _, l := range c.Order {
 		orphan, err := chain.ProcessBlock(cl.CloneBlock(t.blocks[l].Block))
 		r.Steps = append(r.Steps, Step{orphan, errClass(err)})
@@ -630,6 +653,13 @@ func oracle(c *Case, r *Result) []string {
 			fails = append(fails, fmt.Sprintf("class=block-exist: Chain.BlockExist(%d)=%v but stored=%v orphan=%v", i, r.Exist[i], r.Stored[i], r.Orphan[i]))
 		}
 	}
+	if r.Ref != nil {
+		for i := 0; i <= n; i++ {
+			if r.Stored[i] != r.Ref[i] {
+				fails = append(fails, fmt.Sprintf("class=differs-from-in-order: block %d stored=%v, but %v on a fresh node that received the same blocks parents first", i, r.Stored[i], r.Ref[i]))
+			}
+		}
+	}
 	for i := 1; i <= n; i++ {
 		valid := c.Bad[i-1] == 0
 		p := c.Parents[i-1]
@@ -642,7 +672,7 @@ func oracle(c *Case, r *Result) []string {
 		if delivered[i] && valid && !r.Stored[i] && !r.Orphan[i] {
 			fails = append(fails, fmt.Sprintf("class=block-lost: valid delivered block %d is neither stored nor waiting", i))
 		}
-		if r.Orphan[i] {
+		if r.Orphan[i] && valid { // an unlisted valid orphan would be left behind when its parent arrives
 			found := false
 			for _, l := range r.Prev[p] {
 				found = found || l == i
@@ -755,7 +785,8 @@ func maxSiblingOrphans(c *Case) int {
 func runC12(c *Ctx) error {
 	var cases []*Case
 	add := func(kind string, parents, bad, order []int) {
-		cases = append(cases, &Case{ID: len(cases), Kind: kind, Parents: parents, Bad: bad, Order: order})
+		cases = append(cases, &Case{ID: len(cases), Kind: kind, Parents: parents, Bad: bad, Order: order,
+			Ref: !strings.HasPrefix(kind, "exhaustive_")}) // the exhaustive streams contain the in-order run of every tree
 	}
 	// regression corpus: the historical witness (three sibling orphans, then the parent) and relatives
 	add("corpus", []int{0, 1, 1, 1}, zeros(4), []int{2, 3, 4, 1})
@@ -790,18 +821,18 @@ func runC12(c *Ctx) error {
 		}
 		full7 := 0
 		for _, shape := range treeShapes(7, 4) {
-			if classes := upToSymmetry(shape, perms7); len(classes) <= 420 {
+			if classes := upToSymmetry(shape, perms7); len(classes) <= 210 {
 				full7++
 				for _, p := range classes {
 					add("exhaustive_7", shape, zeros(7), p)
 				}
 				continue
 			}
-			for k := 0; k < 24; k++ {
+			for k := 0; k < 16; k++ {
 				add("sampled_7", shape, zeros(7), randomOrder(c.Rng, shape, k%4))
 			}
 		}
-		scope += fmt.Sprintf("; all delivery orders up to tree automorphism of all shapes with 6 blocks, and of the %d shapes with 7 blocks that have at least 12 automorphisms (the other 7-block shapes: 24 sampled orders each)", full7)
+		scope += fmt.Sprintf("; all delivery orders up to tree automorphism of all shapes with 6 blocks, and of the %d shapes with 7 blocks that have at least 24 automorphisms (the other 7-block shapes: 16 sampled orders each)", full7)
 	}
 	c.Stats.Extra["exhaustive_scope"] = scope
 
@@ -825,7 +856,7 @@ func runC12(c *Ctx) error {
 	}
 
 	// malformed stream: small trees with invalid blocks, repeated and missing deliveries
-	nmal := c.N(250, 2500)
+	nmal := c.N(250, 1800)
 	for k := 0; k < nmal; k++ {
 		n := 2 + c.Rng.Intn(7)
 		parents := randomTree(c.Rng, n, 4, c.Rng.Intn(2))
@@ -869,11 +900,15 @@ func runC12(c *Ctx) error {
 			failed++
 			c.Stats.Count("oracle_failed_cases")
 		}
-		// direct oracle part two: tree order on a fresh node stores the same set — implied by the closure
-		// comparison above (the closure is what in-order delivery stores), checked on the in-order cases
-		// of the exhaustive stream themselves.
-		id := c.Cases.Add(modelExpr(cs), observedExpr(r))
-		c.Stats.Count("model_evaluated")
+		// every case goes through the oracle; the model is evaluated on all of them except that the two
+		// largest exhaustive streams of the thorough tier are thinned to every third case (and every failure)
+		id := cs.ID
+		if thin := cs.Kind == "exhaustive_6" || cs.Kind == "exhaustive_7"; !thin || cs.ID%3 == 0 || len(fails) > 0 || r.Panic != "" {
+			id = c.Cases.Add(modelExpr(cs), observedExpr(r))
+			c.Stats.Count("model_evaluated")
+		} else {
+			id = -1
+		}
 		ms := maxSiblingOrphans(cs)
 		outOfOrder := false
 		for _, s := range r.Steps {
@@ -903,7 +938,7 @@ func runC12(c *Ctx) error {
 		if left > 0 {
 			c.Stats.Count("case_orphans_remain_at_end")
 		}
-		if len(fails) > 0 || id < 5 || id%(c.N(700, 9000)) == 11 {
+		if id >= 0 && (len(fails) > 0 || id < 5 || id%(c.N(700, 5000)) == 11) {
 			d := map[string]interface{}{"kind": cs.Kind, "parents": cs.Parents, "invalid": cs.Bad, "order": cs.Order,
 				"steps": r.Steps, "stored": r.Stored, "orphan": r.Orphan, "panic": r.Panic}
 			if len(fails) > 0 || id < 5 {
@@ -912,8 +947,8 @@ func runC12(c *Ctx) error {
 			c.Stats.Sample(d)
 		}
 	}
-	c.Stats.Rule = "a case is a block tree rooted at genesis (real signed blocks, 4-key federation, epoch length 4) and a delivery sequence fed to Chain.ProcessBlock of a fresh node on LevelDB in a child process; streams: regression corpus (three or more sibling orphans before their parent), ALL delivery orders of ALL tree shapes up to the exhaustive bound, sampled orders of all 7-block shapes (thorough), random orders (uniform / children-first / held-back / level-by-level) of 8..60-block trees with up to 6 children per block and a few invalid blocks, and a malformed stream (invalid blocks, repeated and omitted deliveries); distinct = distinct (tree, invalid marks, order); non-trivial = at least one delivery arrived before its parent; the oracle checks on the implementation only: no panic/hang, stored set = closure of the delivered set, no valid orphan with a stored parent, no valid delivered block lost, every orphan indexed under its parent, BlockExist = stored or orphan; per-delivery (orphan flag, error class), stored/orphan membership and the orphan index per parent are compared with the Coq model"
+	c.Stats.Rule = "a case is a block tree rooted at genesis (real signed blocks, 4-key federation, epoch length 4) and a delivery sequence fed to Chain.ProcessBlock of a fresh node on LevelDB in a child process; streams: regression corpus (three or more sibling orphans before their parent), ALL delivery orders of ALL tree shapes up to the exhaustive bound, sampled orders of all 7-block shapes (thorough), random orders (uniform / children-first / held-back / level-by-level) of 8..60-block trees with up to 6 children per block and a few invalid blocks, and a malformed stream (invalid blocks, repeated and omitted deliveries); distinct = distinct (tree, invalid marks, order); non-trivial = at least one delivery arrived before its parent; the oracle checks on the implementation only: no panic/hang, stored set = closure of the delivered set = what a second fresh node stores when it receives the same blocks parents first (non-exhaustive streams; the exhaustive ones contain that order), no valid orphan with a stored parent, no valid delivered block lost, every valid orphan indexed under its parent, BlockExist = stored or orphan; per-delivery (orphan flag, error class), stored/orphan membership and the orphan index per parent are compared with the Coq model"
 	header := "From Coq Require Import ZArith NArith List Bool.\nFrom C12 Require Import Model Run.\nImport ListNotations.\nDefinition rc := run_case.\n"
-	c.Cases.Shard = c.N(300, 1500)
+	c.Cases.Shard = c.N(160, 1500)
 	return c.Cases.Write(c.Out, header, "cres", "cres_eqb")
 }
